@@ -78,4 +78,6 @@ def generate(tier, seed):
             src.append(fn(n, "    wire_seq(%d, %s);" % (n_el, "true" if opt else "false")))
             hs.append(H(n, "wire: %s of %d element(s) (NIL_EXT / LIST_EXT) -> decode -> from_term gives it back; Some(empty) is not None"
                         % ("Option<Vec<u8>>" if opt else "Vec<u8>", n_el)))
+            if opt and n_el == 0:
+                hs[-1].force_quick = True      # ~205 s: the only harness that sees an empty sequence inside an Option over the wire (seed C15-m6)
     return "\n".join(src), hs
